@@ -34,7 +34,7 @@ LOCAL, PEER = '10.0.0.1', '10.0.0.2'
 
 
 def counts(tier: str):
-    return (400, 70.0) if tier == 'quick' else (20000, 900.0)
+    return (1200, 70.0) if tier == 'quick' else (20000, 900.0)
 
 
 # ------------------------------------------------------------------ stream construction
@@ -87,7 +87,9 @@ def build_message(spec: dict, idx: int) -> bytes:
         if f == 'marker':
             m = bytearray(R.MARKER)
             m[spec['bit'] // 8] ^= 1 << (spec['bit'] % 8)
-            return R.message(R.KEEPALIVE, marker=bytes(m))
+            mt = spec.get('mtype', R.KEEPALIVE)
+            body = {R.KEEPALIVE: b'', R.NOTIFICATION: bytes([6, 2]), R.UPDATE: bytes(4), R.ROUTE_REFRESH: bytes([0, 1, 0, 1]), R.OPEN: bytes(10)}.get(mt, b'')
+            return R.message(mt, body, marker=bytes(m))
         if f == 'short':
             return R.message(spec.get('type', R.KEEPALIVE), length=spec['len'])
         if f == 'long':
@@ -131,7 +133,8 @@ def generate(rng, tier: str, index: int) -> dict:
         if f == 'notif':
             msgs.append({'k': 'notif'})
         elif f == 'marker':
-            msgs.append({'k': 'bad', 'f': 'marker', 'bit': rng.randint(0, 127)})
+            # the damaged marker comes first whatever the Type octet says (RFC 4271 6.1), a NOTIFICATION's included
+            msgs.append({'k': 'bad', 'f': 'marker', 'bit': rng.randint(0, 127), 'mtype': rng.choice([4, 4, 2, 3, 3, 5])})
         elif f == 'short':
             msgs.append({'k': 'bad', 'f': 'short', 'len': rng.choice([0, 1, 18, rng.randint(0, 18)]), 'type': rng.choice([1, 2, 4, 5])})
         elif f == 'long':
